@@ -12,7 +12,7 @@ CONSTANTS
   MaxRequery = 0
   FixCommitState = TRUE
   SeqSMP = FALSE
-  FixSMPReset = FALSE
+  FixSMPReset = TRUE
 INVARIANTS TypeOK InOrderNoDup SlotBound NoSplice NoNilKey
 PROPERTIES TamperRejected
 CHECK_DEADLOCK FALSE
